@@ -546,6 +546,44 @@ def fixtures(max_bytes: int = 6000) -> list[dict]:
 _GARBAGE = ["\x00", "\xff", "é", " ", "}{", '"', "'", "${", "]", "[", "-8<-", "/*", "\t", "\r"]
 
 
+def add_macros(rng, text: str) -> str:
+    """Rewrite a generated project so that it defines and uses macros: a one-line allocation macro substituted
+    for some `allocate r` lines, and a multi-line task macro with arguments called one to three times at top level.
+    The definitions go right after the project header or (one of them, sometimes) to the end of the file."""
+    import re as _re
+
+    lines = text.split("\n")
+    if "}" not in lines:
+        return text
+    res = _re.findall(r"^resource (\w+) ", text, _re.M)
+    if not res:
+        return text
+    r = _pick(rng, res)
+    defs = [f"macro alloc_{r} [ allocate {r} ]"]
+    out = []
+    for ln in lines:
+        if ln.strip() == f"allocate {r}" and rng.random() < 0.7:
+            out.append(ln[: len(ln) - len(ln.lstrip())] + "${alloc_" + r + "}")
+        else:
+            out.append(ln)
+    lines = out
+    calls = []
+    if rng.random() < 0.7:
+        body = ["macro mk_task [", '  task $1 "$2" {', "    effort $3d", f"    allocate {r}"]
+        if rng.random() < 0.4:
+            body.append("    # generated by macro [v1]" if rng.random() < 0.5 else "    priority 6$3" + "0")
+        body += ["  }", "]"]
+        defs.append("\n".join(body))
+        for i in range(rng.randrange(1, 4)):
+            calls.append("${mk_task mx%d Extra%d %d}" % (i, i, rng.randrange(1, 4)))
+    hc = lines.index("}")
+    tail = []
+    if len(defs) > 1 and rng.random() < 0.3:
+        tail = [defs.pop(rng.randrange(len(defs)))]
+    lines = lines[: hc + 1] + defs + lines[hc + 1 :] + calls + tail
+    return "\n".join(lines)
+
+
 def corrupt(rng, text: str, n_edits: int | None = None) -> tuple[str, list]:
     """The `bytes` fault: 1-3 seeded edits modelling a torn or bit-rotted stored file."""
     if n_edits is None:
@@ -604,11 +642,11 @@ def corrupt(rng, text: str, n_edits: int | None = None) -> tuple[str, list]:
                 edits.append(["swap", i, j])
                 text = "\n".join(lines)
         elif k == 8:  # drop one brace
-            idx = [i for i, c in enumerate(text) if c in "{}"]
+            idx = [i for i, c in enumerate(text) if c in "{}[]"]  # (brackets delimit macro bodies)
             if idx:
                 i = _pick(rng, idx)
+                edits.append(["brace" if text[i] in "{}" else "bracket", i])
                 text = text[:i] + text[i + 1 :]
-                edits.append(["brace", i])
         elif k == 9:  # duplicate a block of bytes (replayed write)
             i = rng.randrange(n)
             ln = rng.randrange(1, min(200, n - i) + 1)
